@@ -16,7 +16,8 @@ StLists == {<<>>} \cup {<<a>> : a \in StShapes} \cup
            {<<a, b>> : a \in {x \in StShapes : x.stop = 1 /\ x.arr = None}, b \in {x \in StShapes : x.stop = 2 /\ x.dep # None /\ x.marked = None}}
 
 (* start times are not in journal order (2, 1, 4, 3 hours): a free-form journal need not be sorted *)
-StartOf(n) == 3600 * (IF n % 2 = 1 THEN n + 1 ELSE n - 1)
+StartOf(n) == IF n = 3 THEN ZeroT                      \* the third trip has no start time at all (time.Time{})
+              ELSE 3600 * (IF n % 2 = 1 THEN n + 1 ELSE n - 1)
 TripShape(n, dir, veh, marked, sts) ==
     [uid |-> [start |-> StartOf(n), sfx |-> n], pfx |-> n, sfx |-> n, route |-> n, dir |-> dir, start |-> StartOf(n),
      vehId |-> veh, assigned |-> veh # 0, sts |-> sts, lastObs |-> 50 + n, marked |-> marked,
